@@ -339,8 +339,7 @@ def gen_nesting(g):
         cases.append(Case("bomb:variants", "VR le %d 0 v %s" % (ph, h), len(data), model="VR le 0 v %s" % h if small else None, expect=exp, note="%d nested variants" % n))
         cases.append(Case("bomb:variants", "UP le %d 0 0 v %s" % (ph, h), len(data), model="UP le 0 0 v %s" % h if small else None, expect=exp, note="%d nested variants" % n))
         for ty in ("Variant", "ParamVariant", "MS1", "MV1", "Vec<Variant>", "DE1", "v[y]", "v[v[y]]"):
-            # (params::Variant does not count itself: it accepts one level more; C18's subject, no verdict demanded here)
-            want = exp if ty in ("Variant", "MS1", "MV1") else None
+            want = exp if ty in ("Variant", "ParamVariant", "MS1", "MV1") else None
             cases.append(Case("bomb:variants", "UT %s le %d 0 0 %s" % (ty, phase(), h), len(data), expect=want, note="%d nested variants" % n))
         cases += body_cases("bomb:variants", "Variant", "v", "le", 0, data, phase(), ["get", "param", "validate", "all"], expect=exp, expect_get=exp)
         # the same body inside a whole message
